@@ -173,10 +173,16 @@ func (vc *VC) discharge(o *Obligation, outDir string, timeoutS int) {
 	}
 	// last resort before reporting an undischarged obligation: one more, longer, uncontended attempt
 	// (guards against timeouts caused by machine load rather than by the obligation)
-	if !o.Cover && !reachOnly {
+	if !o.Cover {
+		retryT := timeoutS * 3
+		if reachOnly {
+			// reachability queries have a 4 s budget above; under heavy machine load (a test suite running
+			// beside the check) that was exceeded on the unchanged tree, so they get one uncontended retry too
+			retryT = 20
+		}
 		retryMu.Lock()
 		for _, s := range solvers[:2] {
-			r := runSolver(context.Background(), s, script, outDir, base+".retry", timeoutS*3, false)
+			r := runSolver(context.Background(), s, script, outDir, base+".retry", retryT, false)
 			all = append(all, r)
 			if r.status == "unsat" || r.status == "sat" {
 				retryMu.Unlock()
